@@ -1482,6 +1482,17 @@ def callee_profile(f):
     return out
 
 
+def fields_written(f):
+    """sorted ["Record.field"] this function stores to"""
+    from .cfg import written_lvalues
+    out = set()
+    for b, i, ev in f.events():
+        for lhs, how, rhs in written_lvalues(ev):
+            if lhs.get('k') == 'member' and lhs.get('rec') and how != '&arg':
+                out.add('%s.%s' % (lhs['rec'], lhs['field']))
+    return sorted(out)
+
+
 def callee_identity(ck, prog):
     pid = ck.pid
     files = anchor_files(pid)
